@@ -74,6 +74,13 @@ Rename == /\ Live /\ pc = "rename"
           /\ pc' = "unlink"
           /\ UNCHANGED <<todo, crashed, recovered, conf>>
 
+\* the content written is identical to a file that is already there (a shard flushed or received a second time): the
+\* rename replaces that file atomically by an equal one; nothing is ever missing under the final name
+RenameOnto(i) == /\ Live /\ pc = "rename" /\ Proto = "shard_flush" /\ i \in Inputs /\ fs[i] = "complete"
+                 /\ fs' = [fs EXCEPT ![Tmp] = "absent"]
+                 /\ pc' = "unlink"
+                 /\ UNCHANGED <<todo, crashed, recovered, conf>>
+
 \* inputs merged into the new shard (or cache items subsumed / evicted) are unlinked one at a time, in any order
 Unlink == /\ Live /\ pc = "unlink"
           /\ IF todo = {} \/ Proto \in {"shard_flush", "local_put"} THEN pc' = "done" /\ UNCHANGED <<fs, todo>>
@@ -88,7 +95,7 @@ Recover == /\ crashed /\ ~recovered
            /\ fs' = IF Proto = "cache_put" THEN [fs EXCEPT ![Tmp] = "absent"] ELSE fs
            /\ recovered' = TRUE /\ UNCHANGED <<pc, todo, crashed, conf>>
 
-Next == Create \/ UnlinkEarly \/ Write \/ Rename \/ Unlink \/ Crash \/ Recover
+Next == Create \/ UnlinkEarly \/ Write \/ Rename \/ (\E i \in AllInputs : RenameOnto(i)) \/ Unlink \/ Crash \/ Recover
 Spec == Init /\ [][Next]_vars
 
 \* C19: no partial file is ever visible under a final name
